@@ -153,6 +153,22 @@ class AtomsExplicit(Ext):
                 args = [to_z3(x, "real") for x in self.positions.data]
                 return Tensor((self.k, 3), [mk(self.force_fns[i][d](*args)) for i in range(self.k) for d in range(3)])
             return Builtin("get_forces", gf)
+        if name == "get_kinetic_energy":
+            def ke(I_, a, k):
+                acc = 0
+                for i in range(self.k):
+                    for d in range(3):
+                        p_ = self.momenta.get((i, d))
+                        acc = B(I_, "+", acc, B(I_, "/", B(I_, "*", p_, p_), B(I_, "*", 2, self.masses.get((i,)))))
+                return acc
+            return Builtin("get_kinetic_energy", ke)
+        if name == "get_number_of_degrees_of_freedom":
+            def dof(I_, a, k):
+                n = 3 * self.k
+                for c in self.constraints:          # ase: FixAtoms removes 3 per fixed atom, FixCom 3
+                    n -= 3 * len(c.indices) if c.name == "FixAtoms" else 3
+                return n
+            return Builtin("get_number_of_degrees_of_freedom", dof)
         if name == "get_potential_energy":
             return Builtin("get_potential_energy", lambda I_, a, k: I_.path.fresh("Epot"))
         if name == "get_center_of_mass":
